@@ -88,27 +88,36 @@ def run_case(eng, case, timeout=30.0):
 
 
 def _run_batch(eng, batch, timeout):
-    """batch: list of cases. iso cases with identical (pre, bind, opts) share one request."""
+    """batch: list of cases. iso cases with identical (pre, bind, opts) share engine requests (their
+    steps are independent: each runs in its own child scope of the environment built by `pre`)."""
     out = [None] * len(batch)
     groups = {}
     for i, c in enumerate(batch):
-        if c.iso and len(c.steps) == 1:
+        if c.iso:
             k = (c.pre, json.dumps(c.bind, sort_keys=True), json.dumps(c.opts, sort_keys=True))
             groups.setdefault(k, []).append(i)
         else:
             out[i] = run_case(eng, c, timeout)
     for k, idxs in groups.items():
         c0 = batch[idxs[0]]
-        for off in range(0, len(idxs), 256):
-            part = idxs[off:off + 256]
-            steps = [batch[i].steps[0] for i in part]
+        pos = 0
+        while pos < len(idxs):
+            part, nsteps = [], 0
+            while pos < len(idxs) and (not part or nsteps + len(batch[idxs[pos]].steps) <= 256):
+                part.append(idxs[pos])
+                nsteps += len(batch[idxs[pos]].steps)
+                pos += 1
+            steps = [s for i in part for s in batch[i].steps]
             res = eng.run(request_of(c0, steps), timeout=timeout)
             if len(res) == 1 and res[0].get("st") == "pre_error":
-                res = res * len(part)
-            if len(res) != len(part):
-                raise E.MachineryError("engine answered %d of %d steps" % (len(res), len(part)))
-            for i, r in zip(part, res):
-                out[i] = [r]
+                res = res * len(steps)
+            if len(res) != len(steps):
+                raise E.MachineryError("engine answered %d of %d steps" % (len(res), len(steps)))
+            off = 0
+            for i in part:
+                n = len(batch[i].steps)
+                out[i] = res[off:off + n]
+                off += n
     return out
 
 
